@@ -218,7 +218,7 @@ func (c *Ctx) tonProofLayout() {
 	var keys []string
 	for _, name := range []string{"Server.GeneratePayload", "Server.CheckPayload"} {
 		if f := c.mustFn(R, "tonconnect", name); f != nil {
-			for _, cl := range callsTo(f, "crypto/hmac.New") {
+			for _, cl := range c.callsToDeep(f, "crypto/hmac.New") {
 				k := "?"
 				if _, n, ok := fieldOfLoad(stripConv(cl.Call.Args[1])); ok {
 					k = n
